@@ -5,6 +5,7 @@ import (
 	"bytes"
 	"fmt"
 	"io"
+	"math"
 	"math/big"
 	"math/rand"
 	"reflect"
@@ -145,7 +146,8 @@ func SettingCanHold(d *eqv.D, s Setting) bool {
 				}
 			case hio.LongTypeUint, hio.LongTypeUint64:
 				// negative values beyond int32 would be read as unsigned
-				if d.I.Sign() < 0 && d.I.Cmp(big.NewInt(-(1<<31))) < 0 {
+				// (a whole-valued big.Rat or a *big.Int travels as a long token whatever its size)
+				if d.I.Sign() < 0 {
 					ok = false
 				}
 				if d.I.Cmp(maxUint64) > 0 {
@@ -156,13 +158,18 @@ func SettingCanHold(d *eqv.D, s Setting) bool {
 			if s.Real == hio.RealTypeBigFloat && d.F != d.F {
 				ok = false
 			}
+			// a finite double beyond the float32 range has no float32 form (the decoder reports a range error)
+			if s.Real == hio.RealTypeFloat32 && !math.IsInf(d.F, 0) && math.Abs(d.F) > math.MaxFloat32 {
+				ok = false
+			}
 		}
 		if d.K == eqv.KList && s.List == hio.ListTypeSlice {
 			// a typed slice is built when all non-nil elements agree: nil elements of a
 			// scalar or struct-value slice become zero values
 			nils, others := 0, 0
 			for _, x := range d.List {
-				if x.K == eqv.KNil {
+				if x.K == eqv.KNil || x.K == eqv.KList && len(x.List) == 0 || x.K == eqv.KMap && len(x.Keys) == 0 {
+					// (an empty list or map is read as a nil slice or map, which the typed slice zero-fills)
 					nils++
 				} else {
 					others++
